@@ -189,7 +189,8 @@ Refinement ==
     LET bits == UNION {{CounterOf(b, i) : i \in ring[b]} : b \in DOMAIN ring} IN
     {c \in bits : InWindow(c)} = {c \in seen : InWindow(c)}
 
-\* a window never spans more than the ring (the reason the ring size formula is what it is)
+\* a window never spans more than the ring (the reason the ring size formula is what it is).  Not among the checked
+\* invariants: a ring that is too small shows as a violation of Exact, with a behaviour that can be replayed.
 RingLargeEnough == RingBits >= Size + B - 1
 \* (informative) the allocated ring is the documented one
 RingIsFormula == RingBlocks = FormulaRingBlocks(Size)
